@@ -4,7 +4,7 @@ use vlib::runner::{cli_main, Engine};
 fn lookup(prop: &str) -> Option<Box<dyn Engine>> {
     let p: &'static str = match prop {
         "C01" => "C01", "C02" => "C02", "C03" => "C03", "C04" => "C04", "C06" => "C06", "C07" => "C07",
-        "C08" => "C08", "C10" => "C10", "C11" => "C11", "C12" => "C12",
+        "C08" => "C08", "C10" => "C10", "C11" => "C11", "C12" => return Some(Box::new(vlib::c12::C12Engine::new())),
         "C18" => return Some(Box::new(vlib::c18::C18Engine::new())),
         _ => return None,
     };
